@@ -388,8 +388,8 @@ func ruleRangeHandler(c *Ctx, prefix string, want map[string]bool) {
 	c.R.Functions[shortFn(fn)] = true
 	ex := NewExplorer(c.P, c.Pure, fn)
 	keyRe := `\(net\.HardwareAddr\)\.String\(\$1\.ClientHWAddr\)`
-	lookRe := regexp.MustCompile(`^lookup@t\d+\(\$0\.Recordsv4,` + keyRe + `\)#1$`)
-	allocRe := `invoke:` + reQ(modPath) + `/plugins/allocators\.Allocator\.Allocate@t\d+\(\$0\.allocator,[^)]*\)`
+	lookRe := regexp.MustCompile(`^lookup@(?:[\w$]+·)?t\d+\(\$0\.Recordsv4,` + keyRe + `\)#1$`)
+	allocRe := `invoke:` + reQ(modPath) + `/plugins/allocators\.Allocator\.Allocate@(?:[\w$]+·)?t\d+\(\$0\.allocator,[^)]*\)`
 	bad := map[string][]string{}
 	addb := func(rule, s string) {
 		for _, x := range bad[rule] {
@@ -402,7 +402,7 @@ func ruleRangeHandler(c *Ctx, prefix string, want map[string]bool) {
 		}
 	}
 	counts := map[string]int{}
-	nowPlus := regexp.MustCompile(`\(time\.Time\)\.Add@t\d+\(time\.Now@t\d+\(\),\$0\.LeaseTime\)`)
+	nowPlus := regexp.MustCompile(`\(time\.Time\)\.Add@(?:[\w$]+·)?t\d+\(time\.Now@(?:[\w$]+·)?t\d+\(\),\$0\.LeaseTime\)`)
 	ex.Hooks.Label = func(st *State, in ssa.Instruction) string {
 		switch x := in.(type) {
 		case *ssa.MapUpdate:
@@ -468,11 +468,11 @@ func ruleRangeHandler(c *Ctx, prefix string, want map[string]bool) {
 			}
 			// the record inserted carries the address just allocated
 			if al, ok := ex.Resolve(st, x.Value).(*ssa.Alloc); ok {
-				ip, _ := st.ReadLocal("new@" + al.Name() + ".IP")
+				ip, _ := st.ReadLocal("new@" + anm(al) + ".IP")
 				if !regexp.MustCompile(`^(\(net\.IP\)\.To4\()?` + allocRe + `#0\.IP\)?$`).MatchString(ip) {
 					addb("RANGE.INSERT", "the record inserted does not carry the address returned by the allocator: "+shortName(ip))
 				}
-				exp, _ := st.ReadLocal("new@" + al.Name() + ".expires")
+				exp, _ := st.ReadLocal("new@" + anm(al) + ".expires")
 				if !nowPlus.MatchString(exp) {
 					addb("DB.EXPIRY", "a new record's expiry is not now + lease time: "+shortName(exp))
 				}
@@ -488,7 +488,7 @@ func ruleRangeHandler(c *Ctx, prefix string, want map[string]bool) {
 			case fieldName(fa) == "YourIPAddr" && ex.Canon(st, fa.X).S == "$2":
 				counts["yiaddr"]++
 				v := ex.Canon(st, x.Val).S
-				okV := regexp.MustCompile(`^lookup@t\d+\(\$0\.Recordsv4,`+keyRe+`\)#0\.IP$`).MatchString(v) ||
+				okV := regexp.MustCompile(`^lookup@(?:[\w$]+·)?t\d+\(\$0\.Recordsv4,`+keyRe+`\)#0\.IP$`).MatchString(v) ||
 					regexp.MustCompile(`^(\(net\.IP\)\.To4\()?`+allocRe+`#0\.IP\)?$`).MatchString(v)
 				if !okV {
 					addb("RANGE.PROVENANCE", "yiaddr is neither this client's stored binding nor the address just obtained from the allocator: "+shortName(v))
@@ -602,7 +602,7 @@ func ruleDBLoad(c *Ctx, prefix string) {
 		}
 		nIns++
 		k := ex.Canon(st, mu.Key).S
-		if !regexp.MustCompile(`^\(net\.HardwareAddr\)\.String\(.*(parseHWAddr|ParseMAC)(@t\d+)?\(.*\)#0\)$`).MatchString(k) {
+		if !regexp.MustCompile(`^\(net\.HardwareAddr\)\.String\(.*(parseHWAddr|ParseMAC)(@(?:[\w$]+·)?t\d+)?\(.*\)#0\)$`).MatchString(k) {
 			keyBad = append(keyBad, "restored records are keyed by "+shortName(stripAt(k))+", not by HardwareAddr.String() of the parsed address (the form the handler looks up)")
 		}
 		if _, ok := ex.Resolve(st, mu.Map).(*ssa.MakeMap); !ok {
@@ -618,7 +618,7 @@ func ruleDBLoad(c *Ctx, prefix string) {
 		mapN, _ := ex.NilState(st, ret.Results[0])
 		if errN == 1 {
 			nS++
-			if v, _ := histFact(st, "nil", regexp.MustCompile(`\(\*database/sql\.Rows\)\.Err@t\d+\(`)); v != 1 {
+			if v, _ := histFact(st, "nil", regexp.MustCompile(`\(\*database/sql\.Rows\)\.Err@(?:[\w$]+·)?t\d+\(`)); v != 1 {
 				bad = append(bad, "success is returned without rows.Err() having been found nil: a truncated scan yields a partial map")
 			}
 			if mapN != 0 {
